@@ -38,6 +38,7 @@ from typing import Any, Callable
 from . import tlc
 from .report import Report
 
+NPROCS = int(os.environ.get("VERIF_PROCS", "16"))
 HERE = os.path.dirname(os.path.abspath(__file__))
 TPL_DIR = os.path.join(os.path.dirname(HERE), "specs", "lib")
 
@@ -243,7 +244,8 @@ def run_schedule(comp: IOComponent, cfg, sim: IOSim, schedule):
 # 1. model checking
 
 def model_check(comp: IOComponent, rep: Report, emit=True, workers=1, timeout=1500):
-    text = _tpl("IOCompMC.tpl", {"NAME": comp.spec})
+    text = _tpl("IOCompMC.tpl", {"NAME": comp.spec, "EXTRAS": "Extras(calls, inp)"})
+    text_hist = _tpl("IOCompMC.tpl", {"NAME": comp.spec, "EXTRAS": "{<<>>}"})
     res = tlc.run(comp.spec + "MC", MC_CFG_EDGES if emit else MC_CFG_EDGES.replace("ACTION_CONSTRAINT Emit\n", ""),
                   extra_modules={comp.spec + "MC": text}, workers=workers, timeout=timeout)
     if res.invariant_violated:
@@ -265,8 +267,8 @@ def model_check(comp: IOComponent, rep: Report, emit=True, workers=1, timeout=15
         {"module": comp.spec + "MC", "pass": "edges", "distinct_states": res.distinct,
          "states_generated": res.generated, "depth": res.depth, "edges": len(edges), "wall_s": round(res.wall_s, 2)})
     if comp.has_ghost:
-        res2 = tlc.run(comp.spec + "MC", MC_CFG_HIST, extra_modules={comp.spec + "MC": text},
-                       workers="auto", timeout=timeout)
+        res2 = tlc.run(comp.spec + "MC", MC_CFG_HIST, extra_modules={comp.spec + "MC": text_hist},
+                       workers=min(NPROCS, 8), timeout=timeout)
         if res2.invariant_violated:
             rep.violation({"component": comp.name, "what": f"model (history pass) violates {res2.invariant_violated}",
                            "clauses": ["MC:" + res2.invariant_violated], "tlc_tail": res2.out.splitlines()[-60:]})
@@ -414,10 +416,10 @@ def _walk_worker(args):
         nondet = any(len(v) > 1 for v in g.groups.values())
         left_ok = len(todo) if (nondet and cycles < budget) else 0
         left_bad = len(todo) - left_ok
-        return cfg, len(covered_groups), len(covered_edges), cycles, walks, viol, (left_ok, left_bad), None
+        return cfg, len(covered_groups), sorted(covered_edges), cycles, walks, viol, (left_ok, left_bad), None
     except Exception:
         import traceback
-        return cfg, 0, 0, 0, 0, [], (0, 0), traceback.format_exc()
+        return cfg, 0, [], 0, 0, [], (0, 0), traceback.format_exc()
 
 
 def _post(comp, cfg, line):
@@ -427,7 +429,7 @@ def _post(comp, cfg, line):
     return line
 
 
-def replay_edges(comp: IOComponent, edges, inits, rep: Report, procs=16, max_len=60):
+def replay_edges(comp: IOComponent, edges, inits, rep: Report, procs=NPROCS, max_len=60):
     by_cfg = defaultdict(list)
     for e in edges:
         by_cfg[_key(e["cfg"])].append(e)
@@ -446,13 +448,14 @@ def replay_edges(comp: IOComponent, edges, inits, rep: Report, procs=16, max_len
     _warm()
     with mp.Pool(min(procs, max(1, len(tasks)))) as pool:
         results = pool.map(_walk_worker, tasks, chunksize=1)
-    cg = ce = cyc = wk = left = left_ok = 0
+    cg = cyc = wk = left = left_ok = 0
+    cov_edges = {}
     for cfg, ncg, nce, cycles, walks, viol, nleft, err in results:
         if err:
             rep.violation({"component": comp.name, "cfg": cfg, "clauses": ["ReplayException"], "what": err[-1500:]})
             continue
         cg += ncg
-        ce += nce
+        cov_edges.setdefault(_key(cfg), set()).update(nce)
         cyc += cycles
         wk += walks
         left_ok += nleft[0]
@@ -464,7 +467,7 @@ def replay_edges(comp: IOComponent, edges, inits, rep: Report, procs=16, max_len
     rep.add("edges_total", len(edges))
     rep.add("edge_groups_total", total_groups)
     rep.add("edge_groups_replayed_into_impl", cg)
-    rep.add("edges_replayed_into_impl", ce)
+    rep.add("edges_replayed_into_impl", sum(len(v) for v in cov_edges.values()))
     rep.add("edge_groups_not_chosen_by_impl", left_ok)
     rep.add("replay_walks", wk)
     rep.add("replay_cycles", cyc)
@@ -534,7 +537,7 @@ def _record_task(args):
         return out, traceback.format_exc(), cfg
 
 
-def record_traces(comp: IOComponent, jobs_by_cfg, rep: Report, procs=16, split=4):
+def record_traces(comp: IOComponent, jobs_by_cfg, rep: Report, procs=NPROCS, split=4):
     """jobs_by_cfg: list of (cfg, [job...]); job = {"kind":"random","seed","cycles"} or
     {"kind": <name>, "schedule": [step...]}.  Jobs of one configuration are split over up to
     `split` workers (each elaborates once)."""
